@@ -36,6 +36,7 @@
 package main
 
 import (
+	"bytes"
 	"context"
 	"crypto/sha256"
 	"database/sql"
@@ -94,12 +95,13 @@ var specs = []spec{
 	{"usr/lib/opkg/status", "os/dpkg/testdata/opkg", "", ""},
 	{"lib/apk/db/installed", "os/apk/testdata", "installed", ""},
 	{"usr/share/rpm/Packages", "os/rpm/testdata", "=Packages_epoch", ""}, // the one Berkeley DB fixture of the repository that holds packages
+	{"usr/share/rpm/Packages-journal", "", "", "#hot-journal"},           // absent by default; beside an SQLite-format Packages (variant 7) a genuine hot rollback journal
 	{"usr/share/rpm/__db.001", "", "", "\x00\x00\x00\x00berkeley region file stand-in\n"},
 	{"usr/share/rpm/.dbenv.lock", "", "", ""},
 	{"usr/share/rpm/.rpm.lock", "", "", ""},
 	{"usr/share/rpm/Packages.db", "os/rpm/testdata", "=Packages.db", ""},
-	{"var/lib/rpm/rpmdb.sqlite", "", "", "#rpm-sqlite"}, // generated: the header blobs of the Berkeley DB fixture in an SQLite rpmdb
-	{"var/lib/rpm/rpmdb.sqlite-journal", "", "", "#missing"},
+	{"var/lib/rpm/rpmdb.sqlite", "", "", "#rpm-sqlite"},          // generated: the header blobs of the Berkeley DB fixture in an SQLite rpmdb
+	{"var/lib/rpm/rpmdb.sqlite-journal", "", "", "#hot-journal"}, // absent by default; the hot rollback journal of variant 7 of the database
 	{"usr/lib/sysimage/rpm/rpmdb.sqlite", "", "", "#wal-db"},
 	{"usr/lib/sysimage/rpm/rpmdb.sqlite-wal", "", "", "#wal-wal"},
 	{"usr/lib/sysimage/rpm/rpmdb.sqlite-shm", "", "", "#wal-shm"},
@@ -196,7 +198,7 @@ var groups = []group{
 		"var/lib/containerd/io.containerd.grpc.v1.cri/containers/b47fb93b51d091e16ae145b8b1438e5c011fd68cd65305fcd42fd83a13da7a8c/status"}},
 	{"rpm-sqlite-wal", "usr/lib/sysimage/rpm/rpmdb.sqlite", []string{"usr/lib/sysimage/rpm/rpmdb.sqlite-wal", "usr/lib/sysimage/rpm/rpmdb.sqlite-shm", "etc/os-release"}},
 	{"rpm-sqlite-journal", "var/lib/rpm/rpmdb.sqlite", []string{"var/lib/rpm/rpmdb.sqlite-journal"}},
-	{"rpm-bdb", "usr/share/rpm/Packages", []string{"usr/share/rpm/__db.001", "usr/share/rpm/.dbenv.lock", "usr/share/rpm/.rpm.lock"}},
+	{"rpm-bdb", "usr/share/rpm/Packages", []string{"usr/share/rpm/__db.001", "usr/share/rpm/.dbenv.lock", "usr/share/rpm/.rpm.lock", "usr/share/rpm/Packages-journal"}},
 	{"rpm-ndb", "usr/share/rpm/Packages.db", []string{"usr/share/rpm/.rpm.lock"}},
 	{"gomod", "app/go.mod", []string{"app/go.sum"}},
 	{"requirements", "app/requirements.txt", []string{"app/other-requirements.txt"}},
@@ -277,6 +279,39 @@ func walTrio(base string, rpmdb []byte) (db, wal, shm []byte) {
 	shm, err = os.ReadFile(p + "-shm")
 	must(err)
 	h.Close()
+	return
+}
+
+// hotPair: an SQLite rpm database in rollback-journal mode (what rpm uses where shared memory is not available) in the state an
+// interrupted or concurrently copied transaction leaves: the database file holds uncommitted pages, the journal beside it is HOT
+// (valid header, page records): whoever opens the database read-write rolls it back in place and deletes the journal.
+func hotPair(base string, rpmdb []byte) (db, journal []byte) {
+	dir := filepath.Join(base, "hotgen")
+	must(os.MkdirAll(dir, 0o755))
+	defer os.RemoveAll(dir)
+	p := filepath.Join(dir, "x.sqlite")
+	must(os.WriteFile(p, rpmdb, 0o644))
+	h, err := sql.Open("sqlite3", "file:"+p+"?_journal_mode=DELETE")
+	must(err)
+	defer h.Close()
+	h.SetMaxOpenConns(1)
+	ex := func(q string, args ...any) {
+		_, err := h.Exec(q, args...)
+		must(err)
+	}
+	ex("CREATE TABLE IF NOT EXISTS Filler (id INTEGER PRIMARY KEY, data BLOB)")
+	for i := 0; i < 50; i++ {
+		ex("INSERT INTO Filler (data) VALUES (?)", bytes.Repeat([]byte{byte(i)}, 3000))
+	}
+	// a tiny page cache makes the open transaction spill modified pages into the database file, after syncing the journal header
+	ex("PRAGMA cache_size=2")
+	ex("BEGIN IMMEDIATE")
+	ex("UPDATE Filler SET data = zeroblob(3000)")
+	db, err = os.ReadFile(p)
+	must(err)
+	journal, err = os.ReadFile(p + "-journal")
+	must(err)
+	ex("ROLLBACK")
 	return
 }
 
@@ -389,6 +424,8 @@ func snapshot(root string) map[string]string {
 		case fi.IsDir():
 			// a directory's mtime moves when an entry is created and removed again, which by itself does not count
 			m[rel] = fmt.Sprintf("d:%v", fi.Mode())
+		case !fi.Mode().IsRegular():
+			m[rel] = fmt.Sprintf("o:%v", fi.Mode()) // a fifo and the like: never opened
 		default:
 			b, _ := os.ReadFile(p)
 			h := sha256.Sum256(b)
@@ -622,7 +659,7 @@ func main() {
 	for i, s := range specs {
 		defaults[i] = '0'
 		if strings.HasPrefix(s.literal, "#") {
-			if s.literal == "#missing" {
+			if s.literal == "#missing" || s.literal == "#hot-journal" {
 				defaults[i] = '5'
 				contents[i] = []byte("\xd9\xd5\x05\xf9\x20\xa1\x63\xd7 stand-in for a rollback journal\n")
 			}
@@ -650,6 +687,13 @@ func main() {
 		}
 	}
 	contents[index("var/lib/rpm/rpmdb.sqlite")] = rpmSqlite(base, contents[index("usr/share/rpm/Packages")])
+	hotDB, hotJ := hotPair(base, contents[index("var/lib/rpm/rpmdb.sqlite")])
+	contents[index("var/lib/rpm/rpmdb.sqlite-journal")] = hotJ
+	contents[index("usr/share/rpm/Packages-journal")] = hotJ
+	// variant 7 of the two rollback-mode databases: the state that goes with the hot journal (for Packages: an SQLite-format file
+	// under the Berkeley DB name, which go-rpmdb recognises by its magic bytes)
+	alts[index("var/lib/rpm/rpmdb.sqlite")] = [][]byte{hotDB}
+	alts[index("usr/share/rpm/Packages")] = [][]byte{hotDB, contents[index("var/lib/rpm/rpmdb.sqlite")]}
 	db, wal, shm := walTrio(base, contents[index("var/lib/rpm/rpmdb.sqlite")])
 	contents[index("usr/lib/sysimage/rpm/rpmdb.sqlite")] = db
 	contents[index("usr/lib/sysimage/rpm/rpmdb.sqlite-wal")] = wal
@@ -748,6 +792,15 @@ func main() {
 	}
 	emit('v', 66, with(all6))
 	emit('x', 66, with(all6))
+	// rollback-mode databases with a genuine hot journal beside them, under both names; a stale journal beside a clean database
+	for _, route := range []byte("rv") {
+		for _, pr := range [][2]string{{"var/lib/rpm/rpmdb.sqlite", "var/lib/rpm/rpmdb.sqlite-journal"}, {"usr/share/rpm/Packages", "usr/share/rpm/Packages-journal"}} {
+			emit(route, 70, with(map[int]byte{index(pr[0]): '7', index(pr[1]): '0'}))
+			emit(route, 71, with(map[int]byte{index(pr[0]): '7'}))
+			emit(route, 72, with(map[int]byte{index(pr[1]): '0'}))
+		}
+		emit(route, 73, with(map[int]byte{index("usr/share/rpm/Packages"): '8', index("usr/share/rpm/Packages-journal"): '0'}))
+	}
 	// a directory where a database or one of its side files is expected
 	for _, q := range []string{"usr/lib/sysimage/rpm/rpmdb.sqlite-wal", "usr/lib/sysimage/rpm/rpmdb.sqlite-shm", "var/lib/rpm/rpmdb.sqlite-journal", "var/lib/rpm/rpmdb.sqlite",
 		"usr/share/rpm/Packages", "var/lib/containerd/io.containerd.snapshotter.v1.overlayfs/metadata.db", "app/Magic.dll"} {
